@@ -30,6 +30,7 @@ struct result {
 	int noprune;			/* in: verification re-run, vrt_state_seen() never prunes */
 	int status;
 	int pruned;			/* ended early at an already expanded canonical state */
+	int used_seen;			/* the execution consulted the canonical-state table */
 	int trunc_rec;			/* trace buffer overflowed */
 	unsigned long steps;
 	unsigned long first_free_step;	/* step index of the last deviation (tree-node accounting) */
@@ -71,6 +72,7 @@ void vrt_promo_insert(struct config *cfg, uintptr_t pc);
 #define SEEN_SLOTS (1UL << 22)
 struct seen_slot { unsigned long key; unsigned long meta; };
 extern struct seen_slot *vrt_seen_tab;
+extern int vrt_seen_unavailable;	/* set in a child that did not inherit the table: never prune */
 
 /* development aid (bin/coverage, option --covmap): one byte per text byte, shared by all executions of a job;
  * set for the return address of every instrumented access / function entry that was executed */
